@@ -362,6 +362,26 @@ static void run_curve(Out& out, const CurveDesc& d) {
     bool dead = false;  // a previous call left a non-finite current point
     for (size_t ci = 0; ci < d.calls.size() && !dead; ci++) {
         const Call& call = d.calls[ci];
+        if (ci > 0 && (ci + d.calls.size()) % 2 == 0) {
+            // continue on a COPY of the curve (FlexPath::copy_from, repetition copies and hierarchy queries do this to every
+            // spine): the copy must carry the vertices, the tolerance and the last control point, or the smooth sections and
+            // turns that follow bend differently
+            Curve c2 = {};
+            c2.copy_from(c);
+            bool same = c2.point_array.count == c.point_array.count && c2.tolerance == c.tolerance &&
+                        ((c2.last_ctrl.x == c.last_ctrl.x && c2.last_ctrl.y == c.last_ctrl.y) ||
+                         (c2.last_ctrl.x != c2.last_ctrl.x && c.last_ctrl.x != c.last_ctrl.x));
+            for (uint64_t i = 0; same && i < c.point_array.count; i++)
+                same = (c2.point_array[i].x == c.point_array[i].x || c.point_array[i].x != c.point_array[i].x) &&
+                       (c2.point_array[i].y == c.point_array[i].y || c.point_array[i].y != c.point_array[i].y);
+            if (!same) {
+                std::string cid = out.add("copy", desc + " @" + std::to_string(ci));
+                out.I(cid, "differs");
+                out.P(cid, "FAIL curve:copy_from the copy of a curve differs from it in vertices, tolerance or last control point");
+            }
+            c.clear();
+            c = c2;
+        }
         const Vec2 pre = c.point_array[c.point_array.count - 1];
         const Vec2 pre_ctl = c.last_ctrl;
         const uint64_t n0 = c.point_array.count;
